@@ -434,6 +434,20 @@ static void run_grids() {
             run_case(keyf(), m, c, do_scaling);
         }
         vf::space(vf::KS() << "grid " << m.id << " (n=" << n << "): 4 coarsenings x 9 relaxations x 5 level settings x ncycle{1,2} x npre{1,2,3} x npost{1,2,3} x pre_cycles{1,2}");
+        // one-sided smoothing (npre = 0 or npost = 0 are valid parameter values): the cycle is still one fixed linear operator and,
+        // on these matrices, still a contraction; with a second pass (ncycle = 2 / pre_cycles = 2) every pass has to start from
+        // the residual of the current iterate
+        if (!variant_unit() && my < 7) {
+            static const unsigned PP[4][2] = {{0, 1}, {0, 2}, {1, 0}, {2, 0}};
+            for (int ci = 0; ci < 4; ++ci) for (int ri = 0; ri < 3; ++ri) for (int lv : {0, 2})
+            for (unsigned nc = 1; nc <= 2; ++nc) for (auto &pp : PP) for (unsigned pc = 1; pc <= 2; ++pc) {
+                Cfg c{ci, ri, lv, nc, pp[0], pp[1], pc};
+                auto keyf = [&]{ return std::string(vf::KS() << "grid|" << m.id << "|" << cfg_key(c)); };
+                if (!vf::take(keyf)) continue;
+                run_case(keyf(), m, c, false);
+            }
+            vf::space(vf::KS() << "grid " << m.id << ": one-sided smoothing (npre,npost) in {(0,1),(0,2),(1,0),(2,0)} x 4 coarsenings x {damped_jacobi, spai0, gauss_seidel} x {ce1_direct, ce2_smooth} x ncycle{1,2} x pre_cycles{1,2}");
+        }
     }
 }
 
